@@ -30,7 +30,8 @@ ASSUMPTIONS = [
     "cells have |det| >= 1e-6; no isolated vertices",
     "scale factors in [1/32, 32], translations within [-20, 20]^3 (keeps every tolerance meaningful: rel. 1e-9 of the quantity + 1e-12 L^p)",
     "persistent calls on one mesh use pairwise distinct attribute names (re-creating an existing name is C05's subject)",
-    "vertex normals are compared only where |sum w n| / sum w >= 0.05 (well-defined direction)",
+    "vertex_normals(mode) is evaluated only on meshes where |sum w n| / sum w >= 0.05 at every vertex (well-defined direction; a folded "
+    "vertex star whose normals cancel is a degenerate element)",
 ]
 
 TOL = 1e-9
@@ -305,10 +306,11 @@ def evaluate_surface(ctx, V, F, rnd, where, full):
     masks = {}
     for mode in ("uniform", "area", "angle"):
         n, qual = R.vertex_normals(V, F, mode)
+        if not np.all(qual >= 0.05):
+            # the weighted normals around some vertex (nearly) cancel: no well-defined direction, the function is not called
+            ctx.discard(f"vertex_normals[{mode}] not evaluated: normal sum (nearly) cancels at a vertex of the {where.split(' ')[0]} mesh")
+            continue
         ref["vn_" + mode] = n
-        masks["vn_" + mode] = qual >= 0.05
-        if not np.all(masks["vn_" + mode]):
-            ctx.discard("vertex normal direction ill-conditioned at some vertex (masked)")
     if tri:
         ref["defect"] = R.angle_defects(V, F, False); ref["defect0"] = R.angle_defects(V, F, True)
         ref["cotan"] = R.corner_cotangents(V, F); ref["cotw"] = R.cotan_edge_weights(V, F, medges)
@@ -349,6 +351,8 @@ def evaluate_surface(ctx, V, F, rnd, where, full):
         Q = R.quat_to_matrix([0.5, 0.5, -0.5, 0.5])
         cn = ref["fnormal"] @ Q.T
         exp, qual = R.vertex_normals(V, F, mode, fnormals=cn)
+        if not np.all(qual >= 0.05):
+            return
         dense_in = rnd.randrange(2) == 0
         cattr = mesh.faces.create_attribute("c07_custom_normals", float, 3, dense=dense_in)
         for k in range(nF):
@@ -507,7 +511,7 @@ def poly_ok(V, F, strict=True):
     return True
 
 
-POLY_BASES = ["grid", "grid", "cyl_u", "cube", "prism", "antiprism", "polygon", "fan_closed", "fan_open", "strip", "hexgrid"]
+POLY_BASES = ["grid", "grid", "cyl_u", "cube", "prism", "prism", "antiprism", "polygon", "fan_closed", "hexgrid", "hexgrid"]
 FLAT = ("grid", "polygon", "fan_closed", "fan_open", "strip", "hexgrid")
 
 
@@ -898,10 +902,10 @@ def self_test():
 
 
 SUBCHECKS = [
-    SubCheck("tri_surface", tri_case(), fn_surface, quick=160, thorough=700),
-    SubCheck("poly_surface", poly_case(), fn_surface, quick=120, thorough=500),
-    SubCheck("tet_volume", tet_case(), fn_tets, quick=100, thorough=400),
-    SubCheck("interpolation", interp_case(), fn_interp, quick=100, thorough=400),
+    SubCheck("tri_surface", tri_case(), fn_surface, quick=640, thorough=800),
+    SubCheck("poly_surface", poly_case(), fn_surface, quick=560, thorough=700),
+    SubCheck("tet_volume", tet_case(), fn_tets, quick=320, thorough=400),
+    SubCheck("interpolation", interp_case(), fn_interp, quick=320, thorough=400),
 ]
 
 MATCHERS = {}
